@@ -33,7 +33,6 @@ pub struct MeanAbsoluteDeviation {
     period: usize,
     index: usize,
     count: usize,
-    sum: f64,
     deque: Box<[f64]>,
 }
 
@@ -45,7 +44,6 @@ impl MeanAbsoluteDeviation {
                 period,
                 index: 0,
                 count: 0,
-                sum: 0.0,
                 deque: vec![0.0; period].into_boxed_slice(),
             }),
         }
@@ -62,12 +60,9 @@ impl Next<f64> for MeanAbsoluteDeviation {
     type Output = f64;
 
     fn next(&mut self, input: f64) -> Self::Output {
-        self.sum = if self.count < self.period {
+        if self.count < self.period {
             self.count = self.count + 1;
-            self.sum + input
-        } else {
-            self.sum + input - self.deque[self.index]
-        };
+        }
 
         self.deque[self.index] = input;
         self.index = if self.index + 1 < self.period {
@@ -76,7 +71,15 @@ impl Next<f64> for MeanAbsoluteDeviation {
             0
         };
 
-        let mean = self.sum / self.count as f64;
+        // The mean is taken over the window itself, as an offset from one of its values: a
+        // running sum keeps rounding residue of evicted values, which made the deviation of a
+        // window of equal values slightly non-zero (and CCI divide residue by residue).
+        let base = self.deque[0];
+        let mut offset = 0.0;
+        for value in &self.deque[..self.count] {
+            offset += value - base;
+        }
+        let mean = base + offset / self.count as f64;
 
         let mut mad = 0.0;
         for value in &self.deque[..self.count] {
@@ -98,7 +101,6 @@ impl Reset for MeanAbsoluteDeviation {
     fn reset(&mut self) {
         self.index = 0;
         self.count = 0;
-        self.sum = 0.0;
         for i in 0..self.period {
             self.deque[i] = 0.0;
         }
